@@ -14,8 +14,8 @@ from .. import snapshot
 BOUNDS = {
     'quick': 'token soups: all concatenations of <= 3 lexemes from a 38-lexeme alphabet (56 k); every code point below '
              'U+3000 + one per general category + surrogates in 5 contexts; 156 documented functions x arities 0..2 over a '
-             '15-value pool + arity 3 over a 6-value pool; callback faults: 12 templates x (every callback invocation x 16 '
-             'exception kinds + 8 return values), <= 1 fault; every prefix and single-character deletion of a 60-formula '
+             '15-value pool + arity 3 over a 6-value pool; callback faults: 12 templates x (every callback invocation x 25 '
+             'exception kinds + 10 return values), <= 1 fault; every prefix and single-character deletion of a 60-formula '
              'corpus',
     'thorough': 'token soups to length 4 (2.1 M); all 1.1 M code points x 5 contexts; arity 3 over the full pool and arity '
                 '4 over an 8-value pool; all placements of <= 2 faults',
@@ -300,6 +300,35 @@ class WeirdArgs(Exception):
         Exception.__init__(self, 1, None, ['#N/A'])
 
 
+class Unhashable(Exception):
+    def __eq__(self, other):
+        return self is other
+    __hash__ = None
+
+
+class StrNotStr(Exception):
+    def __str__(self):
+        return 42
+
+
+class ReprRaises(Exception):
+    def __repr__(self):
+        raise RuntimeError('repr() raises')
+
+
+class EqRaises(Exception):
+    def __eq__(self, other):
+        raise RuntimeError('== raises')
+
+    def __hash__(self):
+        return 7
+
+
+class HashRaises(Exception):
+    def __hash__(self):
+        raise RuntimeError('hash() raises')
+
+
 def exception_menu(env):
     E = env.err
     return [
@@ -320,7 +349,25 @@ def exception_menu(env):
         ('MemoryError', lambda: MemoryError()),
         ('UnicodeDecodeError', lambda: UnicodeDecodeError('utf-8', b'\xff', 0, 1, 'bad')),
         ('AssertionError', lambda: AssertionError()),
+        ('unhashable exception', lambda: Unhashable('u')),
+        ('exception whose __str__ returns a non-string', lambda: StrNotStr()),
+        ('exception whose __repr__ raises', lambda: ReprRaises('r')),
+        ('exception whose __eq__ raises', lambda: EqRaises('e')),
+        ('exception whose __hash__ raises', lambda: HashRaises('h')),
+        ('exception with a non-string message object', lambda: Exception(object())),
+        ('OSError with errno', lambda: OSError(2, 'No such file')),
+        ('exception chained from an error value', lambda: _chained(E)),
     ]
+
+
+def _chained(E):
+    try:
+        try:
+            raise E.NUM
+        except Exception as inner:
+            raise ValueError('outer') from inner
+    except ValueError as e:
+        return e
 
 
 def return_menu(env):
@@ -337,14 +384,15 @@ EVENTS = ('callFunction', 'callVariable', 'callCellValue', 'callRangeValue')
 class Faults(Sub):
     name = 'c01.callback_faults'
     rule = ('14 templates reaching every host callback (custom function, listeners of the four events); every callback '
-            'invocation of a template either behaves or raises one of 17 exception kinds / returns or sets one of 10 odd '
+            'invocation of a template either behaves or raises one of 25 exception kinds (hostile __str__/__hash__/__eq__/'
+            '__repr__ included) / returns or sets one of 10 odd '
             'values; all placements of up to F faults; non-trivial = placement where a callback raised')
     min_cases = 500
     min_nontrivial = 300
     min_classes = 3
 
     def cases(self, tier, unit):
-        nmenu = 17 + 10
+        nmenu = 25 + 10
         for ti in range(len(TEMPLATES)):
             yield [ti, []]
             # first pass discovers how many callback invocations the template has; enumerate up to 12 sites
@@ -355,7 +403,7 @@ class Faults(Sub):
                 for s1 in range(8):
                     for s2 in range(s1 + 1, 8):
                         for m1 in range(nmenu):
-                            for m2 in (0, 6, 7, 12, 17, 22):
+                            for m2 in (0, 6, 7, 12, 17, 25, 30):
                                 yield [ti, [[s1, m1], [s2, m2]]]
 
     def check(self, env, case):
